@@ -176,8 +176,9 @@ def mapping(ref_fn: ast.AST, act_fn: ast.AST) -> Dict[str, str]:
 
 
 class _Rename(ast.NodeTransformer):
-    def __init__(self, m: Dict[str, str]):
+    def __init__(self, m: Dict[str, str], root: ast.AST = None):
         self.m = m
+        self.root = root
 
     def visit_Name(self, n: ast.Name):
         if n.id in self.m:
@@ -196,8 +197,14 @@ class _Rename(ast.NodeTransformer):
         return n
 
     def visit_FunctionDef(self, n: ast.FunctionDef):
+        # a nested def is a local binding like any other: its name follows the renaming of its uses (the function being aligned
+        # keeps its own name)
+        if n is not self.root and n.name in self.m:
+            n.name = self.m[n.name]
         self.generic_visit(n)
         return n
+
+    visit_AsyncFunctionDef = visit_FunctionDef
 
     def visit_keyword(self, n: ast.keyword):
         self.generic_visit(n)
@@ -207,6 +214,9 @@ class _Rename(ast.NodeTransformer):
 def align_function(ref_fn: ast.AST, act_fn: ast.AST) -> Dict[str, str]:
     """Rename the locals of act_fn in place to the reference names; returns the renaming applied."""
     m = mapping(ref_fn, act_fn)
+    # a parameter of a nested function that some call passes by keyword keeps its name (the keyword would no longer match)
+    kw = {k.arg for n in ast.walk(act_fn) if isinstance(n, ast.Call) for k in n.keywords if k.arg}
+    m = {a: r for a, r in m.items() if a not in kw and r not in kw}
     if m:
-        _Rename(m).visit(act_fn)
+        _Rename(m, act_fn).visit(act_fn)
     return m
